@@ -8,9 +8,10 @@ Tr == Traces[tid]
 D == INSTANCE ShExCDoc
 E == INSTANCE SchemaEquiv
 SetOf(q) == {q[i] : i \in 1..Len(q)}
-Shex == {[label |-> s.label, cls |-> s.cls, tcs |-> {[inv |-> t.inv, p |-> t.p, k |-> t.k, card |-> t.card] : t \in SetOf(s.tcs)}] : s \in SetOf(Tr.shex)}
+Shex == {[label |-> s.label, cls |-> s.cls, tcs |-> [i \in 1..Len(s.tcs) |-> [inv |-> s.tcs[i].inv, p |-> s.tcs[i].p, k |-> s.tcs[i].k, card |-> s.tcs[i].card]]] : s \in SetOf(Tr.shex)}
 Shacl == {[iri |-> n.iri, cls |-> n.cls,
-           props |-> {[inv |-> x.inv, p |-> x.p, res |-> <<x.res[1], x.res[2]>>, min |-> x.min, max |-> x.max] : x \in SetOf(n.props)}] : n \in SetOf(Tr.shacl.shapes)}
+           props |-> [i \in 1..Len(n.props) |-> [inv |-> n.props[i].inv, p |-> n.props[i].p, res |-> <<n.props[i].res[1], n.props[i].res[2]>>,
+                                                min |-> n.props[i].min, max |-> n.props[i].max]]] : n \in SetOf(Tr.shacl.shapes)}
 Want(c) == c \in SetOf(Tr.want)
 Clauses ==
   (IF Want("C05") /\ Tr.hasShex THEN D!Clauses(Tr.tokens, Tr.lexerr) ELSE {}) \cup
